@@ -86,7 +86,7 @@ def beh_to_sched(beh, pad=10):
             {"op": "barrier"}, {"op": "getall", "k": 2}, {"op": "close"}]
 
 
-def random_session_program(rng, nkeys=12, nsessions=3, ops_per_session=300, bg=None, flavor_mix=False, hot=None):
+def random_session_program(rng, nkeys=12, nsessions=3, ops_per_session=300, bg=None, flavor_mix=False, hot=None, wal_modes=False):
     """Long program: sessions with fresh random options; overwrite / delete / re-put chains; reads interleaved."""
     u = Uniq()
     steps = []
@@ -98,8 +98,14 @@ def random_session_program(rng, nkeys=12, nsessions=3, ops_per_session=300, bg=N
         ratio = rng.choice(REPRESENTABLE_RATIOS)
         max_size = rng.choice([0, 150, 400, 1200, 5000, 1 << 30])
         use_bg = rng.random() < 0.5 if bg is None else bg
-        steps.append(open_step(thr, max_size, ratio, mem=mem, bg=use_bg, interval_us=rng.choice([200, 1000, 3000]),
-                               rbuf=rng.choice([0, 16, 64, 4096]), wbuf=rng.choice([0, 16, 64, 4096, 1 << 22])))
+        op = open_step(thr, max_size, ratio, mem=mem, bg=use_bg, interval_us=rng.choice([200, 1000, 3000]),
+                       rbuf=rng.choice([0, 16, 64, 4096]), wbuf=rng.choice([0, 16, 64, 4096, 1 << 22]))
+        if wal_modes and rng.random() < 0.4:
+            # asynchronous WAL, with or without direct I/O: a clean Close / re-Open must not show any difference
+            op["async"] = True
+            if rng.random() < 0.5:
+                op["directio"] = True
+        steps.append(op)
         steps.append({"op": "getall", "k": nkeys})
         for i in range(ops_per_session):
             k = rng.choice(hot) if rng.random() < 0.7 else rng.randrange(nkeys)
